@@ -14,7 +14,10 @@ package main
 //   relay_decpending_body   the statements of Relayer.decrementPending, one row each
 //   relay_decpending_calls  every call of Relayer.decrementPending: (function, guard)
 //   relay_checkex_sites     every call of Connection.checkExchanges inside relay.go: (function, guard)
-//   relay_get_body          the statements of relayItems.Get, one row each, complete text on one line
+//   relay_get_body          the statements of relayItems.Get, one row each, complete text on one line;
+//                           statements that only take or release the items lock (r.RLock(), defer r.RUnlock(),
+//                           r.Lock(), r.Unlock(), an if whose branches are only such statements) are left out:
+//                           one lock region is one atomic action of the model whatever the lock kind
 //   relay_deletetomb_body   the statements of relayItems.deleteTomb (the scheduled tombstone collection)
 //   relay_gc_sites          every time.AfterFunc call in relay.go: (function, the scheduled function literal / value)
 
@@ -133,6 +136,47 @@ func (t *translator) rsWalk(body ast.Node, visit func(n ast.Node, guard []string
 	walk(body, nil)
 }
 
+// rsLockOnly: the statement only takes / releases a lock
+func (t *translator) rsLockOnly(s ast.Stmt) bool {
+	isLockCall := func(e ast.Expr) bool {
+		c, ok := e.(*ast.CallExpr)
+		if !ok || len(c.Args) != 0 {
+			return false
+		}
+		sel, ok := c.Fun.(*ast.SelectorExpr)
+		if !ok {
+			return false
+		}
+		switch sel.Sel.Name {
+		case "Lock", "Unlock", "RLock", "RUnlock":
+			return true
+		}
+		return false
+	}
+	switch x := s.(type) {
+	case *ast.ExprStmt:
+		return isLockCall(x.X)
+	case *ast.DeferStmt:
+		return isLockCall(x.Call)
+	case *ast.BlockStmt:
+		for _, y := range x.List {
+			if !t.rsLockOnly(y) {
+				return false
+			}
+		}
+		return true
+	case *ast.IfStmt:
+		if x.Init != nil || !t.rsLockOnly(x.Body) {
+			return false
+		}
+		if x.Else != nil {
+			return t.rsLockOnly(x.Else)
+		}
+		return true
+	}
+	return false
+}
+
 func rsTypeName(ty types.Type) string {
 	if ty == nil {
 		return ""
@@ -201,12 +245,16 @@ func (t *translator) relaySites(w *bytes.Buffer) map[string]int {
 			}
 			if fn == "relayItems.Get" {
 				for _, s := range fd.Body.List {
-					getBody = append(getBody, rsRow{fname, int(s.Pos()), []string{full(s)}})
+					if !t.rsLockOnly(s) {
+						getBody = append(getBody, rsRow{fname, int(s.Pos()), []string{full(s)}})
+					}
 				}
 			}
 			if fn == "relayItems.deleteTomb" {
 				for _, s := range fd.Body.List {
-					tombBody = append(tombBody, rsRow{fname, int(s.Pos()), []string{full(s)}})
+					if !t.rsLockOnly(s) {
+						tombBody = append(tombBody, rsRow{fname, int(s.Pos()), []string{full(s)}})
+					}
 				}
 			}
 			// selector expressions that are the Fun of a call (so that a bare use can be told apart)
